@@ -355,16 +355,39 @@ func (x *rx) literal(cl *ast.CompositeLit, kind string, sv types.Object, elemIs 
 			if tv, has := x.info.Types[val]; has && tv.Value != nil {
 				continue
 			}
-			guarded := false
+			// the guard: math.IsInf / math.IsNaN of the value, or the comparisons that say the same (`v != v` is
+			// NaN, `v > math.MaxFloat64` / `v < -math.MaxFloat64` are the infinities), the value possibly in a
+			// single-assignment local. Any other condition on the value is a guard of unknown meaning.
+			isVal := func(e ast.Expr) bool {
+				return pat.Same(x.info, e, val) || pat.Same(x.info, c07.Through(x.info, e), val)
+			}
+			guarded, other := false, false
 			core.Inspect(x.fn.Decl.Body, func(n ast.Node) bool {
-				if call, ok := n.(*ast.CallExpr); ok {
-					if f := c07.CalleeF(x.info, call); (pkgFunc(f, "math", "IsInf") || pkgFunc(f, "math", "IsNaN")) && len(call.Args) > 0 && pat.Same(x.info, call.Args[0], val) {
+				switch t := n.(type) {
+				case *ast.CallExpr:
+					if f := c07.CalleeF(x.info, t); (pkgFunc(f, "math", "IsInf") || pkgFunc(f, "math", "IsNaN")) && len(t.Args) > 0 && isVal(t.Args[0]) {
 						guarded = true
+					}
+				case *ast.BinaryExpr:
+					switch t.Op {
+					case token.EQL, token.NEQ, token.LSS, token.LEQ, token.GTR, token.GEQ:
+						if isVal(t.X) || isVal(t.Y) {
+							if isVal(t.X) && isVal(t.Y) && (t.Op == token.NEQ || t.Op == token.EQL) {
+								guarded = true // NaN test
+							} else {
+								other = true
+							}
+						}
 					}
 				}
 				return true
 			})
-			x.c.Check("R1.score", name+"/"+tag, val.Pos(), guarded, fmt.Sprintf("JSON field %q is a float taken from the RDB (`%s`) and handed to json.Marshal without an Inf/NaN guard. Witness: a sorted-set member with score +inf (ZADD k +inf m) decodes to math.Inf(1); json.Marshal fails with `unsupported value: +Inf`, the worker calls log.PanicError and decode aborts, so this and all later elements are not printed", tag, x.c.Src(val)))
+			msg := fmt.Sprintf("JSON field %q is a float taken from the RDB (`%s`) and handed to json.Marshal without an Inf/NaN guard. Witness: a sorted-set member with score +inf (ZADD k +inf m) decodes to math.Inf(1); json.Marshal fails with `unsupported value: +Inf`, the worker calls log.PanicError and decode aborts, so this and all later elements are not printed", tag, x.c.Src(val))
+			if !guarded && other {
+				x.c.Undecidedf("R1.score", name+"/"+tag, val.Pos(), "the float `%s` is compared in a condition that is not recognised as an Inf/NaN guard", x.c.Src(val))
+			} else {
+				x.c.Check("R1.score", name+"/"+tag, val.Pos(), guarded, msg)
+			}
 		}
 	}
 }
@@ -443,7 +466,7 @@ func (x *rx) lines() {
 					}
 					loops = append(loops, l)
 					// for i := 0; i < len(obj); i++ with i left alone in the body
-					if cnt, isC := c07.LoopCount(x.info, l).(*ast.CallExpr); isC && len(cnt.Args) == 1 && sv != nil && c07.Obj(x.info, cnt.Args[0]) == sv {
+					if cnt, isC := c07.LoopCount(x.info, l).(*ast.CallExpr); isC && len(cnt.Args) == 1 && sv != nil && c07.Obj(x.info, cnt.Args[0]) == sv && c07.ZeroBased(x.info, l) {
 						post, isInc := l.Post.(*ast.IncDecStmt)
 						if lb, isL := core.Callee(x.info, cnt).(*types.Builtin); isL && lb.Name() == "len" && isInc && post.Tok == token.INC {
 							i := c07.Obj(x.info, l.Init.(*ast.AssignStmt).Lhs[0])
